@@ -126,7 +126,8 @@ func RunScanLogic(fsys FileSystem, pkgLoader PackageLoader, target string, opts 
 		scanner = js
 	}
 
-	allAlerts, totalFunctions, err = RunScanParallel(fsys, files, scanner, opts.ExactOnly)
+	var skipped []string
+	allAlerts, totalFunctions, skipped, err = runScanParallel(fsys, files, scanner, opts.ExactOnly)
 	if err != nil {
 		return err
 	}
@@ -186,6 +187,11 @@ func RunScanLogic(fsys FileSystem, pkgLoader PackageLoader, target string, opts 
 		Summary:      summary,
 		ScannedDeps:  scannedDeps,
 	}
+	// A file that was collected but could not be analysed must show in the report, not only as a
+	// warning on stderr: a scan that silently leaves files out reads as "nothing found".
+	if len(skipped) > 0 {
+		output.Error = fmt.Sprintf("%d of %d files could not be analysed: %s", len(skipped), len(files), strings.Join(skipped, "; "))
+	}
 
 	encoder := json.NewEncoder(os.Stdout)
 	encoder.SetIndent("", "  ")
@@ -195,9 +201,16 @@ func RunScanLogic(fsys FileSystem, pkgLoader PackageLoader, target string, opts 
 // -- Helpers --
 
 func RunScanParallel(fsys FileSystem, files []string, scanner SignatureScanner, exactOnly bool) ([]detection.ScanResult, int, error) {
+	alerts, total, _, err := runScanParallel(fsys, files, scanner, exactOnly)
+	return alerts, total, err
+}
+
+// runScanParallel additionally returns, sorted, one "file: reason" entry per file that was not analysed.
+func runScanParallel(fsys FileSystem, files []string, scanner SignatureScanner, exactOnly bool) ([]detection.ScanResult, int, []string, error) {
 	var (
 		allAlerts      []detection.ScanResult
 		totalFunctions int
+		skipped        []string
 		mu             sync.Mutex
 	)
 
@@ -211,12 +224,18 @@ func RunScanParallel(fsys FileSystem, files []string, scanner SignatureScanner, 
 			defer func() {
 				if r := recover(); r != nil {
 					fmt.Fprintf(os.Stderr, "warning: panic recovered analyzing %s: %v\n", f, r)
+					mu.Lock()
+					skipped = append(skipped, fmt.Sprintf("%s: panic: %v", f, r))
+					mu.Unlock()
 				}
 			}()
 
 			results, err := LoadAndFingerprint(fsys, f)
 			if err != nil {
 				fmt.Fprintf(os.Stderr, "warning: skipping %s: %v\n", f, err)
+				mu.Lock()
+				skipped = append(skipped, fmt.Sprintf("%s: %s", f, firstLine(err.Error())))
+				mu.Unlock()
 				return nil
 			}
 
@@ -262,10 +281,18 @@ func RunScanParallel(fsys FileSystem, files []string, scanner SignatureScanner, 
 	}
 
 	if err := g.Wait(); err != nil {
-		return nil, 0, err
+		return nil, 0, nil, err
 	}
 
-	return allAlerts, totalFunctions, nil
+	sort.Strings(skipped)
+	return allAlerts, totalFunctions, skipped, nil
+}
+
+func firstLine(s string) string {
+	if i := strings.IndexByte(s, '\n'); i >= 0 {
+		return s[:i]
+	}
+	return s
 }
 
 func RunScanDeps(pkgLoader PackageLoader, target string, opts models.ScanOptions, scanner SignatureScanner) ([]detection.ScanResult, int, []string, error) {
